@@ -303,6 +303,11 @@ func (ww *conversionVisitor) visitOneofNode(node *sourcewalk.OneofNode) {
 		ww.addError(node.Source, err)
 	}
 
+	if len(message.descriptor.Field) == 0 {
+		// protobuf does not allow a oneof without members
+		message.descriptor.OneofDecl = nil
+	}
+
 	if node.HasNestedSchemas() {
 		subContext := ww.inMessage(message)
 		if err := node.RangeNestedSchemas(walkerSchemaVisitor(subContext)); err != nil {
